@@ -144,4 +144,359 @@ theorem DecodeVarintUnsigned_depthCheck_u64_eq_model (depth : Int) (h0 : 0 ≤ d
   c_const
   c_eq
 
+/-! ### `ans_read_init` (ans.h): the mirror of `ans_write_end`, all three size classes, any buffer length -/
+
+/-- result of `read_init` once the masked value `V` and the new `buf_offset` are known -/
+def ansFin (V off : Int) : Int × AnsDecoder :=
+  (if V + 4096 ≥ 1048576 then 1 else 0, { buf_offset := off, state := V + 4096 })
+
+theorem ansFin_of (V off G : Int) (h0 : 0 ≤ V) (h1 : V < 2^22) (hG : G = V + 4096) :
+    (if G ≥ 1048576 then ((1 : Int), ({ buf_offset := off, state := G } : AnsDecoder))
+      else (0, { buf_offset := off, state := G })) = ansFin V off := by
+  subst hG
+  unfold ansFin
+  have hcase : V + 4096 ≥ 1048576 ∨ ¬ (V + 4096 ≥ 1048576) := by omega
+  rcases hcase with h | h
+  · simp only [if_pos h]
+  · simp only [if_neg h]
+
+/-- `ans_read_init` as a function of the last three bytes of the buffer, all three size classes -/
+theorem ans_read_init_classes (a : AnsDecoder) (buf : Int → Int) (n : Int) (hb : ∀ i, 0 ≤ buf i ∧ buf i < 256)
+    (hn1 : 1 ≤ n) (hn : n < 2^31) :
+    ans_read_init a buf n =
+      if buf (n - 1) / 64 = 0 then ansFin (buf (n - 1) % 64) (n - 1)
+      else if buf (n - 1) / 64 = 1 then
+        (if n < 2 then (1, a) else ansFin ((buf (n - 1) * 256 + buf (n - 2)) % 16384) (n - 2))
+      else if buf (n - 1) / 64 = 2 then
+        (if n < 3 then (1, a) else ansFin ((buf (n - 1) * 65536 + buf (n - 2) * 256 + buf (n - 3)) % 4194304) (n - 3))
+      else (1, a) := by
+  have g16 := mem_get_le16_val (fun i => buf (n - 2 + i)) (fun i => hb _)
+  have g24 := mem_get_le24_val (fun i => buf (n - 3 + i)) (fun i => hb _)
+  have j1 : n - 2 + 1 = n - 1 := by omega
+  have j2 : n - 2 + 0 = n - 2 := by omega
+  have j3 : n - 3 + 2 = n - 1 := by omega
+  have j4 : n - 3 + 1 = n - 2 := by omega
+  have j5 : n - 3 + 0 = n - 3 := by omega
+  simp only [j1, j2, j3, j4, j5] at g16 g24
+  have h0 := hb (n - 1); have h1 := hb (n - 2); have h2 := hb (n - 3)
+  unfold ans_read_init
+  c_const
+  simp only [g16, g24, cAnd32_63, cAnd32_16383, cAnd32_4194303]
+  have hlt : ¬ (n < 1) := by omega
+  simp only [hlt, if_false]
+  generalize buf (n - 1) = T at *
+  generalize buf (n - 2) = B1 at *
+  generalize buf (n - 3) = B2 at *
+  have hx3 : T / 64 = 0 ∨ T / 64 = 1 ∨ T / 64 = 2 ∨ T / 64 = 3 := by omega
+  rcases hx3 with h | h | h | h
+  · simp only [h, if_true]
+    exact ansFin_of _ _ _ (by omega) (by omega) (by simp only [wrapU32, wrapI32]; omega)
+  · simp (config := { decide := true }) only [h, if_true, if_false]
+    split
+    · rfl
+    · exact ansFin_of _ _ _ (by omega) (by omega) (by simp only [wrapU32]; omega)
+  · simp (config := { decide := true }) only [h, if_true, if_false]
+    split
+    · rfl
+    · exact ansFin_of _ _ _ (by omega) (by omega) (by simp only [wrapU32]; omega)
+  · simp (config := { decide := true }) only [h, if_true, if_false]
+
+/-- the translated `read_init` agrees with the model's result: failure ↔ `none`; on success the state and the number of
+    bytes left below the state bytes (`buf_offset`) are the model's -/
+def ansInitAgrees (g : Int × AnsDecoder) (m : Option Draco.AnsDecoder) : Prop :=
+  match m with
+  | none => g.1 = 1
+  | some d => g = (0, { buf_offset := (d.buf.length : Int), state := (d.state : Int) })
+
+theorem ansFin_agrees (V : Nat) (off : Nat) (stk : List Nat) (m : Option Draco.AnsDecoder) (hoff : stk.length = off) (hV : V < 2^22)
+    (hm : m = if V + 4096 ≥ 4096 * 256 then none else some ⟨V + 4096, stk⟩) :
+    ansInitAgrees (ansFin (V : Int) (off : Int)) m := by
+  unfold ansFin
+  have hcase : V + 4096 ≥ 4096 * 256 ∨ ¬ (V + 4096 ≥ 4096 * 256) := by omega
+  rcases hcase with h | h
+  · rw [if_pos h] at hm
+    subst hm
+    have : (V : Int) + 4096 ≥ 1048576 := by omega
+    simp only [ansInitAgrees, if_pos this]
+  · rw [if_neg h] at hm
+    subst hm
+    have : ¬ ((V : Int) + 4096 ≥ 1048576) := by omega
+    simp only [ansInitAgrees, if_neg this, hoff]
+    rfl
+
+
+theorem ans_read_init_agrees_x0 (a : AnsDecoder) (pre : List Nat) (top : Nat)
+    (hpre : ∀ b ∈ pre, b < 256) (htop : top < 256) (hx : top / 64 = 0) (hlen : pre.length + 1 < 2^31) :
+    ansInitAgrees (ans_read_init a (bufOf (pre ++ [top])) ((pre ++ [top]).length : Nat))
+      (ansReadInit (pre ++ [top])) := by
+  have hb := bufOf_range (pre ++ [top]) (by
+    intro b hb; simp only [List.mem_append, List.mem_cons, List.mem_nil_iff, or_false] at hb
+    rcases hb with h | h
+    · exact hpre b h
+    · omega)
+  have hl : ((pre ++ [top]).length : Int) = pre.length + 1 := by simp
+  rw [ans_read_init_classes a _ _ hb (by rw [hl]; omega) (by rw [hl]; omega)]
+  have e1 : bufOf (pre ++ [top]) (((pre ++ [top]).length : Nat) - 1) = top := by
+    rw [bufOf_suffix pre [top] 0 _ (by rw [hl]; omega)]; rfl
+  rw [e1]
+  have hT : (top : Int) / 64 = 0 := by omega
+  have hr : ansL = 4096 := by decide
+  have hio : ansIO = 256 := by decide
+  have hm : ansReadInit (pre ++ [top]) =
+      if top % 64 + 4096 ≥ 4096 * 256 then none else some ⟨top % 64 + 4096, pre.reverse⟩ := by
+    simp [ansReadInit, hx, hr, hio]
+  simp (config := { decide := true }) only [hT, if_true, if_false]
+  have eV : (top : Int) % 64 = ((top % 64 : Nat) : Int) := by omega
+  have eo : (((pre ++ [top]).length : Nat) : Int) - 1 = ((pre.length : Nat) : Int) := by rw [hl]; omega
+  rw [eV, eo]
+  exact ansFin_agrees _ _ _ _ (by simp) (by omega) hm
+
+theorem ans_read_init_agrees_x1 (a : AnsDecoder) (pre : List Nat) (b1 top : Nat)
+    (hpre : ∀ b ∈ pre, b < 256) (hb1 : b1 < 256) (htop : top < 256) (hx : top / 64 = 1) (hlen : pre.length + 2 < 2^31) :
+    ansInitAgrees (ans_read_init a (bufOf (pre ++ [b1, top])) ((pre ++ [b1, top]).length : Nat))
+      (ansReadInit (pre ++ [b1, top])) := by
+  have hb := bufOf_range (pre ++ [b1, top]) (by
+    intro b hb; simp only [List.mem_append, List.mem_cons, List.mem_nil_iff, or_false] at hb
+    rcases hb with h | h | h
+    · exact hpre b h
+    · omega
+    · omega)
+  have hl : ((pre ++ [b1, top]).length : Int) = pre.length + 2 := by simp
+  rw [ans_read_init_classes a _ _ hb (by rw [hl]; omega) (by rw [hl]; omega)]
+  have e1 : bufOf (pre ++ [b1, top]) (((pre ++ [b1, top]).length : Nat) - 1) = top := by
+    rw [bufOf_suffix pre [b1, top] 1 _ (by rw [hl]; omega)]; rfl
+  have e2 : bufOf (pre ++ [b1, top]) (((pre ++ [b1, top]).length : Nat) - 2) = b1 := by
+    rw [bufOf_suffix pre [b1, top] 0 _ (by rw [hl]; omega)]; rfl
+  rw [e1, e2]
+  have hT : (top : Int) / 64 = 1 := by omega
+  have hr : ansL = 4096 := by decide
+  have hio : ansIO = 256 := by decide
+  have hm : ansReadInit (pre ++ [b1, top]) =
+      if (top * 256 + b1) % 2 ^ 14 + 4096 ≥ 4096 * 256 then none else some ⟨(top * 256 + b1) % 2 ^ 14 + 4096, pre.reverse⟩ := by
+    simp [ansReadInit, hx, hr, hio]
+  simp (config := { decide := true }) only [hT, if_true, if_false]
+  have hn2 : ¬ (((pre ++ [b1, top]).length : Int) < 2) := by rw [hl]; omega
+  rw [if_neg hn2]
+  have eV : ((top : Int) * 256 + b1) % 16384 = (((top * 256 + b1) % 2 ^ 14 : Nat) : Int) := by omega
+  have eo : (((pre ++ [b1, top]).length : Nat) : Int) - 2 = ((pre.length : Nat) : Int) := by rw [hl]; omega
+  rw [eV, eo]
+  exact ansFin_agrees _ _ _ _ (by simp) (by omega) hm
+
+theorem ans_read_init_agrees_x2 (a : AnsDecoder) (pre : List Nat) (b2 b1 top : Nat)
+    (hpre : ∀ b ∈ pre, b < 256) (hb2 : b2 < 256) (hb1 : b1 < 256) (htop : top < 256) (hx : top / 64 = 2) (hlen : pre.length + 3 < 2^31) :
+    ansInitAgrees (ans_read_init a (bufOf (pre ++ [b2, b1, top])) ((pre ++ [b2, b1, top]).length : Nat))
+      (ansReadInit (pre ++ [b2, b1, top])) := by
+  have hb := bufOf_range (pre ++ [b2, b1, top]) (by
+    intro b hb; simp only [List.mem_append, List.mem_cons, List.mem_nil_iff, or_false] at hb
+    rcases hb with h | h | h | h
+    · exact hpre b h
+    · omega
+    · omega
+    · omega)
+  have hl : ((pre ++ [b2, b1, top]).length : Int) = pre.length + 3 := by simp
+  rw [ans_read_init_classes a _ _ hb (by rw [hl]; omega) (by rw [hl]; omega)]
+  have e1 : bufOf (pre ++ [b2, b1, top]) (((pre ++ [b2, b1, top]).length : Nat) - 1) = top := by
+    rw [bufOf_suffix pre [b2, b1, top] 2 _ (by rw [hl]; omega)]; rfl
+  have e2 : bufOf (pre ++ [b2, b1, top]) (((pre ++ [b2, b1, top]).length : Nat) - 2) = b1 := by
+    rw [bufOf_suffix pre [b2, b1, top] 1 _ (by rw [hl]; omega)]; rfl
+  have e3 : bufOf (pre ++ [b2, b1, top]) (((pre ++ [b2, b1, top]).length : Nat) - 3) = b2 := by
+    rw [bufOf_suffix pre [b2, b1, top] 0 _ (by rw [hl]; omega)]; rfl
+  rw [e1, e2, e3]
+  have hT : (top : Int) / 64 = 2 := by omega
+  have hr : ansL = 4096 := by decide
+  have hio : ansIO = 256 := by decide
+  have hm : ansReadInit (pre ++ [b2, b1, top]) =
+      if (top * 65536 + b1 * 256 + b2) % 2 ^ 22 + 4096 ≥ 4096 * 256 then none else some ⟨(top * 65536 + b1 * 256 + b2) % 2 ^ 22 + 4096, pre.reverse⟩ := by
+    simp [ansReadInit, hx, hr, hio]
+  simp (config := { decide := true }) only [hT, if_true, if_false]
+  have hn2 : ¬ (((pre ++ [b2, b1, top]).length : Int) < 3) := by rw [hl]; omega
+  rw [if_neg hn2]
+  have eV : ((top : Int) * 65536 + b1 * 256 + b2) % 4194304 = (((top * 65536 + b1 * 256 + b2) % 2 ^ 22 : Nat) : Int) := by omega
+  have eo : (((pre ++ [b2, b1, top]).length : Nat) : Int) - 3 = ((pre.length : Nat) : Int) := by rw [hl]; omega
+  rw [eV, eo]
+  exact ansFin_agrees _ _ _ _ (by simp) (by omega) hm
+
+
+/-! ### `DecodeVarintUnsigned` as a whole (core/varint_decoding.h): byte source with a position, recursion with fuel -/
+
+set_option maxRecDepth 16384 in
+theorem nat_and_128 : ∀ x : Fin 256, x.val &&& 128 = if x.val ≥ 128 then 128 else 0 := by decide
+
+theorem cAnd32_128 (x : Int) (h0 : 0 ≤ x) (h1 : x < 256) : cAnd 32 x 128 = if x ≥ 128 then 128 else 0 := by
+  unfold cAnd pat
+  have e1 : ((128:Int) % 2^32).toNat = 128 := by decide
+  have e2 : (x % 2^32).toNat = x.toNat := by congr 1; omega
+  rw [e1, e2]
+  have := nat_and_128 ⟨x.toNat, by omega⟩
+  simp only at this
+  rw [this]
+  split <;> split <;> omega
+
+theorem cOr_nat (w : Nat) (A B : Nat) (hA : A < 2^w) (hB : B < 2^w) : cOr w (A : Int) (B : Int) = ((A ||| B : Nat) : Int) := by
+  unfold cOr pat
+  have e1 : ((A : Int) % 2^w).toNat = A := by
+    rw [Int.emod_eq_of_lt (by omega) (by exact_mod_cast hA)]; simp
+  have e2 : ((B : Int) % 2^w).toNat = B := by
+    rw [Int.emod_eq_of_lt (by omega) (by exact_mod_cast hB)]; simp
+  rw [e1, e2]
+
+theorem DecodeVarintUnsigned_u32_aux (budget : Nat) : ∀ (fuel : Nat) (d : Nat) (v0 : Int) (bs : List Nat),
+    (∀ b ∈ bs, b < 256) → 1 ≤ d → d + budget = 6 → budget + 1 ≤ fuel →
+    match decVarintAux 32 budget bs with
+    | none => ∃ v' r', DecodeVarintUnsigned_u32 fuel d v0 (bs.map Int.ofNat) = some (false, v', r')
+    | some (v, rest) => DecodeVarintUnsigned_u32 fuel d v0 (bs.map Int.ofNat) = some (true, (v : Int), rest.map Int.ofNat) := by
+  induction budget with
+  | zero =>
+    intro fuel d v0 bs hb hd hsum hf
+    obtain ⟨f, rfl⟩ : ∃ f, fuel = f + 1 := ⟨fuel - 1, by omega⟩
+    have hd6 : d = 6 := by omega
+    subst hd6
+    have hm : decVarintAux 32 0 bs = none := by cases bs <;> rfl
+    rw [hm]
+    unfold DecodeVarintUnsigned_u32
+    c_const
+    exact ⟨_, _, rfl⟩
+  | succ b ih =>
+    intro fuel d v0 bs hb hd hsum hf
+    obtain ⟨f, rfl⟩ : ∃ f, fuel = f + 1 := ⟨fuel - 1, by omega⟩
+    unfold DecodeVarintUnsigned_u32
+    c_const
+    have hgt : ¬ ((d : Int) > 5) := by omega
+    simp only [hgt, if_false]
+
+    cases bs with
+    | nil => simp only [decVarintAux, List.map_nil]; exact ⟨_, _, rfl⟩
+    | cons byte rest =>
+      have hbyte : byte < 256 := hb byte (by simp)
+      have hrest : ∀ b ∈ rest, b < 256 := fun b h => hb b (by simp [h])
+      have hbi : cAnd 32 (Int.ofNat byte) 128 = if (Int.ofNat byte) ≥ 128 then 128 else 0 :=
+        cAnd32_128 _ (by simp) (by simp; omega)
+      simp only [List.map_cons, hbi]
+      by_cases h128 : byte ≥ 128
+      · have hI : (Int.ofNat byte) ≥ 128 := by simp; omega
+        have hne : wrapI32 (if Int.ofNat byte ≥ 128 then 128 else 0) ≠ 0 := by rw [if_pos hI]; decide
+        rw [if_pos hne]
+        have hm : decVarintAux 32 (b + 1) (byte :: rest) =
+            match decVarintAux 32 b rest with
+            | none => none
+            | some (v, rest') => some (((v * 128) % 2^32) ||| (byte % 128), rest') := by
+          simp [decVarintAux, h128]
+          rfl
+        rw [hm]
+        have hih := ih f (d + 1) v0 rest hrest (by omega) (by omega) (by omega)
+        have hd1 : ((d : Int) + 1) = ((d + 1 : Nat) : Int) := by omega
+        rw [hd1]
+        cases hrec : decVarintAux 32 b rest with
+        | none =>
+          rw [hrec] at hih
+          obtain ⟨v', r', hg⟩ := hih
+          rw [hg]
+          exact ⟨_, _, rfl⟩
+        | some pr =>
+          obtain ⟨v, rest'⟩ := pr
+          rw [hrec] at hih
+          dsimp only at hih ⊢
+          rw [hih]
+          have a1 : cAnd 32 (Int.ofNat byte) 127 = ((byte % 128 : Nat) : Int) := by rw [cAnd32_127]; simp
+          have a2 : wrapU32 (wrapI32 ((byte % 128 : Nat) : Int)) = ((byte % 128 : Nat) : Int) := by
+            rw [wrapI32_id _ (by omega) (by omega)]; exact wrapU32_id _ (by omega) (by omega)
+          have a3 : wrapU32 ((v : Int) * 128) = (((v * 128) % 2^32 : Nat) : Int) := by unfold wrapU32; omega
+          dsimp only
+          rw [a1, a2, a3, cOr_nat 32 _ _ (Nat.mod_lt _ (by decide)) (by omega)]
+          simp
+      · have hI : ¬ ((Int.ofNat byte) ≥ 128) := by simp; omega
+        have hne : ¬ (wrapI32 (if Int.ofNat byte ≥ 128 then 128 else 0) ≠ 0) := by rw [if_neg hI]; decide
+        rw [if_neg hne]
+        have hm : decVarintAux 32 (b + 1) (byte :: rest) = some (byte, rest) := by
+          simp [decVarintAux, h128]
+        rw [hm]
+        rfl
+
+theorem DecodeVarintUnsigned_u64_aux (budget : Nat) : ∀ (fuel : Nat) (d : Nat) (v0 : Int) (bs : List Nat),
+    (∀ b ∈ bs, b < 256) → 1 ≤ d → d + budget = 11 → budget + 1 ≤ fuel →
+    match decVarintAux 64 budget bs with
+    | none => ∃ v' r', DecodeVarintUnsigned_u64 fuel d v0 (bs.map Int.ofNat) = some (false, v', r')
+    | some (v, rest) => DecodeVarintUnsigned_u64 fuel d v0 (bs.map Int.ofNat) = some (true, (v : Int), rest.map Int.ofNat) := by
+  induction budget with
+  | zero =>
+    intro fuel d v0 bs hb hd hsum hf
+    obtain ⟨f, rfl⟩ : ∃ f, fuel = f + 1 := ⟨fuel - 1, by omega⟩
+    have hd11 : d = 11 := by omega
+    subst hd11
+    have hm : decVarintAux 64 0 bs = none := by cases bs <;> rfl
+    rw [hm]
+    unfold DecodeVarintUnsigned_u64
+    c_const
+    exact ⟨_, _, rfl⟩
+  | succ b ih =>
+    intro fuel d v0 bs hb hd hsum hf
+    obtain ⟨f, rfl⟩ : ∃ f, fuel = f + 1 := ⟨fuel - 1, by omega⟩
+    unfold DecodeVarintUnsigned_u64
+    c_const
+    have hgt : ¬ ((d : Int) > 10) := by omega
+    simp only [hgt, if_false]
+
+    cases bs with
+    | nil => simp only [decVarintAux, List.map_nil]; exact ⟨_, _, rfl⟩
+    | cons byte rest =>
+      have hbyte : byte < 256 := hb byte (by simp)
+      have hrest : ∀ b ∈ rest, b < 256 := fun b h => hb b (by simp [h])
+      have hbi : cAnd 32 (Int.ofNat byte) 128 = if (Int.ofNat byte) ≥ 128 then 128 else 0 :=
+        cAnd32_128 _ (by simp) (by simp; omega)
+      simp only [List.map_cons, hbi]
+      by_cases h128 : byte ≥ 128
+      · have hI : (Int.ofNat byte) ≥ 128 := by simp; omega
+        have hne : wrapI32 (if Int.ofNat byte ≥ 128 then 128 else 0) ≠ 0 := by rw [if_pos hI]; decide
+        rw [if_pos hne]
+        have hm : decVarintAux 64 (b + 1) (byte :: rest) =
+            match decVarintAux 64 b rest with
+            | none => none
+            | some (v, rest') => some (((v * 128) % 2^64) ||| (byte % 128), rest') := by
+          simp [decVarintAux, h128]
+          rfl
+        rw [hm]
+        have hih := ih f (d + 1) v0 rest hrest (by omega) (by omega) (by omega)
+        have hd1 : ((d : Int) + 1) = ((d + 1 : Nat) : Int) := by omega
+        rw [hd1]
+        cases hrec : decVarintAux 64 b rest with
+        | none =>
+          rw [hrec] at hih
+          obtain ⟨v', r', hg⟩ := hih
+          rw [hg]
+          exact ⟨_, _, rfl⟩
+        | some pr =>
+          obtain ⟨v, rest'⟩ := pr
+          rw [hrec] at hih
+          dsimp only at hih ⊢
+          rw [hih]
+          have a1 : cAnd 32 (Int.ofNat byte) 127 = ((byte % 128 : Nat) : Int) := by rw [cAnd32_127]; simp
+          have a2 : wrapU64 (wrapI32 ((byte % 128 : Nat) : Int)) = ((byte % 128 : Nat) : Int) := by
+            rw [wrapI32_id _ (by omega) (by omega)]; exact wrapU64_id _ (by omega) (by omega)
+          have a3 : wrapU64 ((v : Int) * 128) = (((v * 128) % 2^64 : Nat) : Int) := by unfold wrapU64; omega
+          dsimp only
+          rw [a1, a2, a3, cOr_nat 64 _ _ (Nat.mod_lt _ (by decide)) (by omega)]
+          simp
+      · have hI : ¬ ((Int.ofNat byte) ≥ 128) := by simp; omega
+        have hne : ¬ (wrapI32 (if Int.ofNat byte ≥ 128 then 128 else 0) ≠ 0) := by rw [if_neg hI]; decide
+        rw [if_neg hne]
+        have hm : decVarintAux 64 (b + 1) (byte :: rest) = some (byte, rest) := by
+          simp [decVarintAux, h128]
+        rw [hm]
+        rfl
+
+/-- `DecodeVarintUnsigned<uint32_t>(1, &v, buffer)` (recursion unrolled with fuel 6 = `max_depth + 1`) is the model's
+    `decVarint 32`: it fails exactly when the model does, otherwise it stores the model's value and leaves the model's rest -/
+theorem DecodeVarintUnsigned_u32_eq_model (v0 : Int) (bs : List Nat) (hb : ∀ b ∈ bs, b < 256) :
+    match decVarint 32 bs with
+    | none => ∃ v' r', DecodeVarintUnsigned_u32 6 1 v0 (bs.map Int.ofNat) = some (false, v', r')
+    | some (v, rest) => DecodeVarintUnsigned_u32 6 1 v0 (bs.map Int.ofNat) = some (true, (v : Int), rest.map Int.ofNat) :=
+  DecodeVarintUnsigned_u32_aux 5 6 1 v0 bs hb (by omega) (by omega) (by omega)
+
+theorem DecodeVarintUnsigned_u64_eq_model (v0 : Int) (bs : List Nat) (hb : ∀ b ∈ bs, b < 256) :
+    match decVarint 64 bs with
+    | none => ∃ v' r', DecodeVarintUnsigned_u64 11 1 v0 (bs.map Int.ofNat) = some (false, v', r')
+    | some (v, rest) => DecodeVarintUnsigned_u64 11 1 v0 (bs.map Int.ofNat) = some (true, (v : Int), rest.map Int.ofNat) :=
+  DecodeVarintUnsigned_u64_aux 10 11 1 v0 bs hb (by omega) (by omega) (by omega)
+
+
 end Draco.Generated
